@@ -461,6 +461,275 @@ def enum_probe(ctx, table, objdir):
             raise vlib.MachineryError("SPEC-AUDIT: clang disagrees with CTypes.EnumBase on %s: %s" % (targ, p.stderr[:400]))
 
 
+# ---- part 2: derived types, Compatible / Composite / pointer assignment ------------------------------------
+STRUCT_DEFS = "struct S1 { int m; };\nstruct S2 { int m; };\nunion U1 { int m; };\n"
+
+
+def cdecl(t, inner=""):
+    """C declaration of `inner` with the spec type record t (pure syntax)."""
+    k = t["k"]
+    q = " ".join(x for x in ("const", "volatile", "restrict") if x in t["q"])
+    if k == "ptr":
+        return cdecl(t["to"], "*" + (q + " " if q else "") + inner)
+    if k == "arr":
+        if inner.startswith("*"):
+            inner = "(" + inner + ")"
+        return cdecl(t["of"], "%s[%s]" % (inner, t["n"] or ""))
+    if k == "fn":
+        if inner.startswith("*"):
+            inner = "(" + inner + ")"
+        ps = ", ".join(cdecl(x) for x in t["ps"]) or "void"
+        if t["va"]:
+            ps += ", ..."
+        return cdecl(t["ret"], "%s(%s)" % (inner, ps))
+    base = SPELL[k] if k in SPELL else "%s %s" % (k, t["tag"])
+    return (q + " " if q else "") + base + (" " + inner if inner else "")
+
+
+class TypeNames:
+    """typedef name per distinct type record"""
+
+    def __init__(self):
+        self.names, self.defs = {}, []
+
+    def name(self, t):
+        key = vlib.canon(t)
+        if key not in self.names:
+            n = "T%d" % len(self.names)
+            self.names[key] = n
+            self.defs.append("typedef %s;" % cdecl(t, n))
+        return self.names[key]
+
+
+def enum_prelude(fixed=True):
+    return "".join(ENUM_DEF[e] + "\n" for e in sorted(ENUM_DEF) if fixed or e not in FIXED_ENUMS)
+
+
+def run_single(objdir, targ, src):
+    rc, out, err = vlib.cproc(objdir, src, targ, timeout=30)
+    return rc, out, err
+
+
+def compat(ctx, objdir):
+    cfg = "MC_CTypes_compat_quick.cfg" if ctx.quick else "MC_CTypes_compat_thorough.cfg"
+    r = ctx.tlc_must_pass("CTypesCompatMC", cfg, workers=8 if ctx.quick else 12, timeout=2400, heap="4g")
+    cases = [json.loads(v) for v in r.vcases]
+    npairs = (r.distinct // 2) ** 2
+    ctx.cov["compat_pairs_model_checked"] = npairs
+    tn = TypeNames()
+    batch = []      # (kind, line, want, alt, info)   int-valued data probes + accepted declarations, one TU
+    rejects = []    # (kind, text, info)              must be refused, one TU each
+    nid = [0]
+
+    def fresh():
+        nid[0] += 1
+        return nid[0]
+    for c in cases:
+        t1 = c["t1"]
+        A = tn.name(t1)
+        for p in c["partners"]:
+            t2 = p["t2"]
+            Bn = tn.name(t2)
+            info = {"t1": cdecl(t1), "t2": cdecl(t2), "qenum": p["qenum"], "arrq": p["arrq"]}
+            if p["bsafe"]:
+                batch.append(("builtin", "int v%d = __builtin_types_compatible_p(%s, %s);", int(p["compat_unq"]), None, info, A, Bn))
+            batch.append(("generic", "int v%d = _Generic((%s *)0, %s *: 1, default: 0);", int(p["compat"]), None, info, A, Bn))
+            fn = t1["k"] == "fn"
+            ext = "" if fn else "extern "
+            if p["redecl"] == "accept":
+                i = fresh()
+                batch.append(("redecl", "%s%s r%d; %s%s r%d;" % (ext, A, i, ext, Bn, i), None, None, info, None, None))
+                if p["det"]:
+                    C = tn.name(p["composite"])
+                    batch.append(("composite", "int v%%d = _Generic(&r%d, %s *: 1, default: 0);" % (i, C), 1, int(p["mod_sees_c"]) if p["dev_composite"] else None, info, None, None))
+                    if p["bump_differs"]:
+                        Bu = tn.name(p["bump"])
+                        batch.append(("composite", "int v%%d = _Generic(&r%d, %s *: 1, default: 0);" % (i, Bu), 0, int(p["mod_sees_bump"]) if p["dev_composite"] else None, info, None, None))
+                    if p["cs_complete"]:
+                        # under the deviation the identifier may be left with an incomplete type: sizeof is then refused
+                        batch.append(("compsize", "int v%%d = sizeof(r%d) == sizeof(%s);" % (i, C), 1,
+                                      ("reject" if not p["mod_complete"] else 1) if p["dev_composite"] else None, info, None, None))
+            elif p["redecl"] == "reject":
+                rejects.append(("redecl", "%s%s x; %s%s x;" % (ext, A, ext, Bn), info))
+            if p["ptrinit"] == "accept":
+                i = fresh()
+                batch.append(("ptrinit", "void f%d(%s *q) { %s *p = q; }" % (i, Bn, A), None, None, info, None, None))
+                if i % 8 == 0:
+                    batch.append(("ptrarg", "void g%d(%s *); void h%d(%s *q) { g%d(q); }" % (i, A, i, Bn, i), None, None, info, None, None))
+                    batch.append(("ptrret", "%s *k%d(%s *q) { return q; }" % (A, i, Bn), None, None, info, None, None))
+            elif p["ptrinit"] == "reject":
+                rejects.append(("ptrinit", "void f(%s *q) { %s *p = q; }" % (Bn, A), info))
+                if len(rejects) % 8 == 0:
+                    rejects.append(("ptrarg", "void g(%s *); void h(%s *q) { g(q); }" % (A, Bn), info))
+                    rejects.append(("ptrret", "%s *k(%s *q) { return q; }" % (A, Bn), info))
+    pre = enum_prelude(True) + STRUCT_DEFS + "\n".join(tn.defs) + "\n"
+    # number the probes
+    lines = []
+    for j, b in enumerate(batch):
+        kind, fmt, want, alt, info, A, Bn = b
+        if kind in ("builtin", "generic"):
+            lines.append(fmt % (j, A, Bn))
+        elif "%d" in fmt:
+            lines.append(fmt % j)
+        else:
+            lines.append(fmt)
+    if ctx.quick:
+        # reject probes cost one process each: all redeclarations, a third of the pointer initialisations
+        rejects = [x for n, x in enumerate(rejects) if x[0] == "redecl" or n % 3 == 0]
+    stats = collections.Counter()
+    for targ in (vlib.TARGETS if not ctx.quick else ["x86_64-sysv", "aarch64"]):
+        compat_target(ctx, objdir, targ, pre, batch, lines, rejects if targ == "x86_64-sysv" or not ctx.quick else rejects[::7], stats)
+    compat_audit(ctx, pre, batch, lines, rejects, stats)
+    ctx.cov.setdefault("stats", {})["compat"] = dict(stats)
+    ctx.validated(len(cases))
+    ctx.sample({"compat pair": batch[len(batch) // 2][4], "probe": lines[len(batch) // 2], "required": batch[len(batch) // 2][2]})
+
+
+def compat_target(ctx, objdir, targ, pre, batch, lines, rejects, stats):
+    npre = pre.count("\n")
+    live = list(range(len(batch)))
+    refused = {}
+    vals = None
+    for _ in range(3000):
+        src = pre + "\n".join(lines[j] for j in live) + "\n"
+        rc, out, err = vlib.cproc(objdir, src, targ, timeout=300)
+        if rc == 0:
+            vals = parse_data_values(out)
+            break
+        m = _ERRLINE.search(err)
+        if not m:
+            raise vlib.MachineryError("compat TU died without a located error on %s: rc=%s %s" % (targ, rc, err[-300:]))
+        idx = int(m.group(1)) - npre - 1
+        if not (0 <= idx < len(live)):
+            raise vlib.MachineryError("cproc rejects the compat prelude (%s): %s" % (targ, err.strip()[:300]))
+        refused[live[idx]] = m.group(2)
+        del live[idx]
+    if vals is None:
+        raise vlib.MachineryError("too many refused compat probes on %s: %s" % (targ, list(refused.items())[:3]))
+    # a refused redeclaration takes its dependent probes with it (undeclared identifier): attribute to the first
+    for j, b in enumerate(batch):
+        kind, fmt, want, alt, info, A, Bn = b
+        ctx.count("%s|%s|%s" % (targ, kind, lines[j]))
+        stats[kind] += 1
+        if j in refused:
+            msg = refused[j]
+            if "undeclared identifier" in msg:
+                continue
+            if alt == "reject":
+                ctx.violation("dev:CompositeIsFirst:%s" % kind, "after `%s x; %s x;` cproc refuses sizeof(x): %s" % (info["t1"], info["t2"], msg),
+                              {"target": targ, "probe": lines[j], "types": info})
+            else:
+                ctx.violation("compat:%s:rejected" % kind, "cproc rejects `%s` (%s), C11 accepts" % (lines[j], msg), {"target": targ, "probe": lines[j], "types": info, "error": msg})
+            continue
+        if want is None:
+            continue
+        got = vals.get("v%d" % j)
+        if got == want:
+            continue
+        if alt is not None and got == alt:
+            ctx.violation("dev:CompositeIsFirst:%s" % kind, "composite type after `%s x; %s x;`: probe `%s` = %s, C11 6.2.7p4 requires %s" % (info["t1"], info["t2"], lines[j], got, want),
+                          {"target": targ, "probe": lines[j], "types": info})
+        else:
+            ctx.violation("compat:%s:%s" % (kind, "unexpected"), "`%s` = %s on %s, C11 requires %s (t1 = %s, t2 = %s)" % (lines[j], got, targ, want, info["t1"], info["t2"]),
+                          {"target": targ, "probe": lines[j], "types": info, "observed": got, "required": want})
+
+    def one(rj):
+        kind, text, info = rj
+        rc, out, err = vlib.cproc(objdir, pre + text + "\n", targ, timeout=30)
+        return rj, rc, err
+    for (kind, text, info), rc, err in vlib.pmap(one, rejects, workers=12):
+        ctx.count("%s|reject|%s|%s" % (targ, kind, text))
+        stats["reject_" + kind] += 1
+        if rc == 1 and "error:" in err:
+            continue
+        if rc == 0:
+            ctx.violation("compat:%s:accepted" % kind, "cproc accepts `%s` (t1 = %s, t2 = %s), C11 requires a diagnostic" % (text, info["t1"], info["t2"]),
+                          {"target": targ, "probe": text, "types": info})
+        else:
+            ctx.violation("compat:%s:crash" % kind, "cproc dies on `%s`: rc=%s %s" % (text, rc, err[-200:]), {"target": targ, "probe": text})
+
+
+def compat_audit(ctx, pre, batch, lines, rejects, stats):
+    """gcc / clang on the same probes: data probes as _Static_assert, accept probes as they are, reject probes
+    each on its own line with unique names; the set of lines with errors must be exactly the reject lines."""
+    body, expect_err = [], set()
+    for j, b in enumerate(batch):
+        kind, fmt, want, alt, info, A, Bn = b
+        ln = lines[j]
+        if want is not None:
+            m = re.match(r"int v\d+ = (.*);$", ln)
+            ln = "_Static_assert((%s) == %d, \"v%d\");" % (m.group(1), want, j)
+        body.append(ln)
+    base = len(body)
+    for n, (kind, text, info) in enumerate(rejects):
+        body.append(re.sub(r"\b([xfghk])\b", lambda mm: "%s_%d" % (mm.group(1), n), text))
+        expect_err.add(base + n)
+    for comp in ("gcc", "clang"):
+        fixed = comp != "gcc"
+        p2 = pre if fixed else pre.replace(ENUM_DEF["efs"] + "\n", "").replace(ENUM_DEF["efuc"] + "\n", "")
+        npre = p2.count("\n")
+        path = ctx.path("compat_audit_%s.c" % comp)
+        with open(path, "w") as f:
+            f.write(p2 + "\n".join(body) + "\n")
+        if comp == "gcc":
+            cmd = ["gcc", "-std=gnu2x", "-fsyntax-only", "-Werror=incompatible-pointer-types", "-Werror=discarded-qualifiers",
+                   "-Werror=discarded-array-qualifiers", "-Werror=pointer-sign", "-Wno-unused", "-fmax-errors=0", path]
+        else:
+            cmd = ["clang", "--target=x86_64-linux-gnu", "-std=gnu2x", "-fsyntax-only", "-Werror=incompatible-pointer-types",
+                   "-Werror=incompatible-pointer-types-discards-qualifiers", "-Werror=pointer-sign",
+                   "-Werror=incompatible-function-pointer-types", "-ferror-limit=0", path]
+        p = subprocess.run(cmd, stdout=subprocess.PIPE, stderr=subprocess.PIPE, text=True, timeout=900)
+        got = {}
+        for m in re.finditer(r"^[^\n:]+:(\d+):\d+: error: ([^\n]*)", p.stderr, re.M):
+            got.setdefault(int(m.group(1)) - npre - 1, m.group(2))
+        if any(i < 0 for i in got):
+            raise vlib.MachineryError("%s rejects the compat prelude: %s" % (comp, p.stderr[:500]))
+        unexpected = sorted(set(got) - expect_err)
+        missing = sorted(expect_err - set(got))
+        infos = [b[4] for b in batch] + [rj[2] for rj in rejects]
+        # 6.7.3p10 + 6.7.2.2p4: `const enum eu` and `const unsigned` are compatible.  gcc 12 (comptypes replaces a
+        # complete enum by its unqualified underlying type) and clang 14 (mergeEnumWithInteger compares the underlying
+        # type with the qualified other type, below the first pointer level) judge such pairs incompatible.
+        skip = {i for i in unexpected + missing if infos[i]["qenum"]}
+        stats["audit_%s_exceptions_qualified_enum" % comp] = len(skip)
+        # C11 6.7.3p9: `const T (*p)[n] = q` with q of type T (*)[n] is a constraint violation (the pointees are
+        # incompatible and an array type is never itself qualified); C23 allows it, gcc -std=gnu2x and clang in every
+        # mode accept it.  These lines are audited separately below with gcc -std=c11 -pedantic-errors.
+        skip2 = {i for i in missing if infos[i]["arrq"]}
+        stats["audit_%s_exceptions_array_qualifiers" % comp] = len(skip2)
+        skip |= skip2
+        unexpected = [i for i in unexpected if i not in skip]
+        missing = [i for i in missing if i not in skip]
+        if (unexpected or missing) and os.environ.get("C05_DEBUG"):
+            with open(os.environ["C05_DEBUG"] + "." + comp, "w") as f:
+                for i in unexpected + missing:
+                    f.write("%s\t%s\n" % (body[i], got.get(i, "ACCEPTED")))
+            import shutil
+            shutil.copy(path, os.environ["C05_DEBUG"] + "." + comp + ".c")
+        if unexpected or missing:
+            i = (unexpected or missing)[0]
+            raise vlib.MachineryError("SPEC-AUDIT: %s disagrees with CTypes on %d accept and %d reject probes; first: `%s` -> %s" % (
+                comp, len(unexpected), len(missing), body[i], got.get(i, "accepted")))
+    # C11-mode confirmation of the array-qualifier rejects
+    arrq = [i for i in sorted(expect_err) if ([b[4] for b in batch] + [rj[2] for rj in rejects])[i]["arrq"]]
+    if arrq:
+        p11 = "".join(ENUM_DEF[e] + "\n" for e in ("eu", "eu2", "es", "es2")) + pre[pre.index(STRUCT_DEFS):]
+        if not any(("enum " + e) in p11[p11.index(STRUCT_DEFS):] for e in ("eul", "el", "efs", "efuc")):
+            path = ctx.path("compat_audit_c11.c")
+            with open(path, "w") as f:
+                f.write(p11 + "\n".join(body[i] for i in arrq) + "\n")
+            p = subprocess.run(["gcc", "-std=c11", "-pedantic-errors", "-fsyntax-only", "-Wno-unused", "-fmax-errors=0", path],
+                               stdout=subprocess.PIPE, stderr=subprocess.PIPE, text=True, timeout=600)
+            npre = p11.count("\n")
+            got = {int(m.group(1)) - npre - 1 for m in re.finditer(r"^[^\n:]+:(\d+):\d+: error: ", p.stderr, re.M)}
+            if any(i < 0 for i in got):
+                raise vlib.MachineryError("gcc -std=c11 rejects the compat prelude: %s" % p.stderr[:400])
+            miss = [arrq[n] for n in range(len(arrq)) if n not in got]
+            stats["audit_gcc_c11_array_qualifier_lines"] = len(arrq)
+            if miss:
+                raise vlib.MachineryError("SPEC-AUDIT: gcc -std=c11 -pedantic-errors accepts `%s` (spec: constraint violation)" % body[miss[0]])
+
+
 def private_build(ctx, flavour):
     """vlib.build evicts older builds of a flavour when /repo changes (other engineers commit hooks while we
     run); keep a private copy of the binary for the duration of this run."""
@@ -484,3 +753,4 @@ def run(ctx):
                        "rendered; evaluations = rendered expressions x targets, each observed by >= 2 data probes; non-trivial = all")
     objdir = private_build(ctx, "plain")
     scalar(ctx, objdir)
+    compat(ctx, objdir)
